@@ -40,7 +40,9 @@ func VerifC18TransitionGroup() {
 		nPairs = vs.Param("windows")
 	}
 	minD, maxD := c18SetParams(e, sdk.NewCoins(), nPairs)
-	m := c18Build(e, c18Opts{sizes: func(kind int) bool { return rich && kind == c18TrNone }})
+	enum := vs.Param("enum_sizes") != 0
+	m := c18Build(e, c18Opts{sizes: func(kind int) bool { return enum && rich && kind == c18TrNone },
+		defSize: vs.Param("max_members")})
 
 	sender := venv.Addr(8)
 	if isAuth {
@@ -125,7 +127,9 @@ func VerifC18ForceTransitionGroup() {
 		nPairs = vs.Param("windows")
 	}
 	minD, maxD := c18SetParams(e, sdk.NewCoins(), nPairs)
-	m := c18Build(e, c18Opts{sizes: func(kind int) bool { return isAuth && kind == c18TrNone }})
+	enum := vs.Param("enum_sizes") != 0
+	m := c18Build(e, c18Opts{sizes: func(kind int) bool { return enum && isAuth && kind == c18TrNone },
+		defSize: vs.Param("max_members")})
 
 	sender := venv.Addr(8)
 	if isAuth {
